@@ -206,6 +206,14 @@ func checkC04(c *Ctx, w *World) {
 				paired := rtCall != nil && everyPathHits(x, map[ssa.Instruction]bool{rtCall: true})
 				c.check(imp && paired, "C04.pair", construct, p.ipos(x), "entry removed only on a Shutdown report of a known connection, and the transition is still recorded on every path",
 					"entry of the reported connection deleted outside a recorded Shutdown transition: "+wit)
+				// removal is final: nothing re-creates the entry later in the same call ("removed connections do not count")
+				var again []string
+				for _, b := range pl.ai.ByFn[fn] {
+					if mu, isMU := b.Instr.(*ssa.MapUpdate); isMU && b.Field == "gcpBalancer.scStates" && mu.Key == sc && mayPrecede(x, mu) {
+						again = append(again, p.ipos(mu))
+					}
+				}
+				c.check(len(again) == 0, "C04.pair", "scStates delete(sc) is final", p.ipos(x), "no store to scStates[sc] can follow the removal in the same call: a removed connection stays unknown and its late reports are ignored", "the entry of a removed connection is re-created after its removal (store at "+strings.Join(again, ", ")+"): the connection stays known and its late reports are counted")
 			} else {
 				construct := "scStates delete(old of refresh)"
 				imp, wit := cs.Implies(cs.Reach(x), cs.And(A("found"), A("sReady")))
